@@ -255,8 +255,8 @@ def convex_variant(rng, case, res):
     if not added:
         return None
     c = dict(case)
-    c.update({'ra1': ra1[:60], 'dec1': dec1[:60], 'ra2': ra2[:60], 'dec2': dec2[:60], 'fam': 'convex'})
-    return c
+    c.update({'ra1': ra1[-60:], 'dec1': dec1[-60:], 'ra2': ra2[-60:], 'dec2': dec2[-60:], 'fam': 'convex'})
+    return limit_cost(c)
 
 
 def gen_case(rng, fam):
@@ -303,9 +303,16 @@ def est_cells(case, cs):
     return (3 + drange / cs) * (3 + 360.0 / cs)
 
 
-def limit_cost(case, max_cells=30000.0):
+def limit_cost(case, max_cells=30000.0, max_pairs=900):
     """the implementation allocates one Python list per cell: keep the grid small by raising chunksize
-    (never below what was drawn, so it stays admissible)"""
+    (never below what was drawn, so it stays admissible); keep the separation table below max_pairs entries"""
+    n1 = len(case['ra1'])
+    if n1 > 36:
+        case['ra1'], case['dec1'] = case['ra1'][-36:], case['dec1'][-36:]
+        n1 = 36
+    n2 = max(1, max_pairs // n1)
+    if len(case['ra2']) > n2:
+        case['ra2'], case['dec2'] = case['ra2'][-n2:], case['dec2'][-n2:]
     cs = eff_chunk(case)
     if est_cells(case, cs) <= max_cells:
         return case
@@ -365,8 +372,8 @@ def edge_variant(rng, case, res):
     if not added:
         return None
     c = dict(case)
-    c.update({'ra1': ra1[:60], 'dec1': dec1[:60], 'ra2': ra2[:60], 'dec2': dec2[:60], 'fam': 'edges'})
-    return c
+    c.update({'ra1': ra1[-60:], 'dec1': dec1[-60:], 'ra2': ra2[-60:], 'dec2': dec2[-60:], 'fam': 'edges'})
+    return limit_cost(c)
 
 
 # --------------------------------------------------------------------------- Coq terms
